@@ -319,6 +319,29 @@ def cmdText (kind : String) (args : List String) : String :=
     | none => "bad-request"
   | _, _ => "bad-request"
 
+/-! ### generated bounds checks (C06) -/
+
+def bv64 (s : String) : BitVec 64 := BitVec.ofInt 64 (parseInt s.toList).1
+
+/-- `idxcheck <rvalue|lvalue> <idx> <len>`: the *regenerated* check evaluated on machine integers -/
+def cmdIdxCheck (args : List String) : String :=
+  match args with
+  | [which, i, l] =>
+    let f := if which == "rvalue" then Generated.rvalueIndexCheck else Generated.lvalueIndexCheck
+    let r := f.eval (bv64 i) (bv64 l)
+    s!"{b2s r.1} {r.2.toInt}"
+  | _ => "bad-request"
+
+/-- `slicecheck <i1> <i2> <len>` -/
+def cmdSliceCheck (args : List String) : String :=
+  match args with
+  | [a, b, l] =>
+    match Generated.listSliceFacts.eval (bv64 a) (bv64 b) (bv64 l) with
+    | .empty => "empty"
+    | .error => "error"
+    | .copy f c => s!"copy {f.toInt} {c.toInt}"
+  | _ => "bad-request"
+
 def dispatch (line : String) : String :=
   match (line.splitOn " ").filter (· ≠ "") with
   | "scan" :: args => cmdScan args
@@ -326,6 +349,8 @@ def dispatch (line : String) : String :=
   | "trie" :: args => cmdTrie args
   | "types" :: args => cmdTypes args
   | "lit" :: args => cmdLit args
+  | "idxcheck" :: args => cmdIdxCheck args
+  | "slicecheck" :: args => cmdSliceCheck args
   | "show" :: args => cmdText "show" args
   | "len" :: args => cmdText "len" args
   | "idx" :: args => cmdText "idx" args
